@@ -10,6 +10,11 @@ enum Ty {
     Bool,
     Void,
     Str,
+    /// leaves of types outside the nested built-in ones, rendered by their own `str`: float, a user struct with a
+    /// user `implement ToString`, a channel with a user `implement ToString for channel<T>`
+    Float,
+    Pt,
+    Chan,
     Arr(Box<Ty>),
     Tup(Vec<Ty>),
     Opt(Box<Ty>),
@@ -24,6 +29,8 @@ enum V {
     Str(String),
     /// a string built at run time and held in the variable `s<idx>` (contents known to the generator)
     Dyn(usize, String),
+    /// (Abra expression, the text its own `str` yields, kind)
+    Ext(String, String, &'static str),
     Arr(Vec<V>),
     Tup(Vec<V>),
     Some(Box<V>),
@@ -39,6 +46,9 @@ impl Ty {
             Ty::Bool => "bool".into(),
             Ty::Void => "void".into(),
             Ty::Str => "string".into(),
+            Ty::Float => "float".into(),
+            Ty::Pt => "Pt".into(),
+            Ty::Chan => "channel<int>".into(),
             Ty::Arr(t) => format!("array<{}>", t.src()),
             Ty::Tup(ts) => format!("({})", ts.iter().map(|t| t.src()).collect::<Vec<_>>().join(", ")),
             Ty::Opt(t) => format!("option<{}>", t.src()),
@@ -74,6 +84,7 @@ impl V {
             V::Nil => "nil".into(),
             V::Str(s) => format!("\"{}\"", escape(s)),
             V::Dyn(i, _) => format!("{p}{i}"),
+            V::Ext(e, _, _) => e.clone(),
             V::Arr(xs) => format!("[{}]", xs.iter().map(|x| x.src_with(p)).collect::<Vec<_>>().join(", ")),
             V::Tup(xs) => format!("({})", xs.iter().map(|x| x.src_with(p)).collect::<Vec<_>>().join(", ")),
             V::Some(x) => format!("option.some({})", x.src_with(p)),
@@ -89,6 +100,7 @@ impl V {
             V::Bool(b) => format!("B {}", if *b { "T" } else { "F" }),
             V::Nil => "N".into(),
             V::Str(s) | V::Dyn(_, s) => format!("S {}", hex(s.as_bytes())),
+            V::Ext(_, t, _) => format!("X {}", hex(t.as_bytes())),
             V::Arr(xs) => {
                 let mut s = format!("A {}", xs.len());
                 for x in xs {
@@ -119,6 +131,7 @@ impl V {
             V::Bool(b) => if *b { "true".into() } else { "false".into() },
             V::Nil => "nil".into(),
             V::Str(s) | V::Dyn(_, s) => s.clone(),
+            V::Ext(_, t, _) => t.clone(),
             V::Arr(xs) => format!("[ {} ]", xs.iter().map(|x| x.render()).collect::<Vec<_>>().join(", ")),
             V::Tup(xs) => format!("({})", xs.iter().map(|x| x.render()).collect::<Vec<_>>().join(", ")),
             V::Some(x) => format!("some({})", x.render()),
@@ -141,6 +154,7 @@ impl V {
             V::Nil => hist.push("leaf:nil"),
             V::Str(s) => hist.push(if s.is_empty() { "leaf:string-empty" } else { "leaf:string" }),
             V::Dyn(..) => hist.push("leaf:string-built-at-run-time"),
+            V::Ext(_, _, k) => hist.push(match *k { "float" => "leaf:float", "pt" => "leaf:user-struct-with-ToString", _ => "leaf:channel-with-ToString" }),
             V::Arr(xs) => {
                 hist.push(match xs.len() { 0 => "array:empty", 1 => "array:one", _ => "array:many" });
                 xs.iter().for_each(|x| x.count(hist));
@@ -160,10 +174,43 @@ impl V {
 const INTS: [i64; 14] = [0, 1, -1, 7, -7, 10, 99, -100, 4294967296, -4294967297, i64::MAX, i64::MIN, i64::MIN + 1, 1000000007];
 const STRS: [&str; 14] = ["", "a", "hello", ", ", "[ ]", "(1, 2)", "some(x)", "none", " ", "a\nb", "q\"uote", "tab\tx", "é日本", "back\\slash"];
 
+/// float literals (spelled so that Abra and Rust read the same f64); the text is Rust's `f64::to_string`,
+/// which is what `string_from_float` is defined as (trusted, like `i64::to_string`)
+const FLOATS: [&str; 12] = ["0.0", "0.5", "2.0", "-1.25", "3.14159", "100.0", "0.1", "1234567.875", "1000000000000000000000.0", "0.00000015", "-0.0", "123456789012345680.0"];
+
+fn float_val(lit: &str) -> V {
+    let x: f64 = lit.parse().unwrap();
+    V::Ext(lit.to_string(), x.to_string(), "float")
+}
+
+/// declarations a program needs for the foreign leaf types its value types contain
+fn preamble(tys: &[&Ty]) -> String {
+    fn kinds(t: &Ty, out: &mut Vec<&'static str>) {
+        match t {
+            Ty::Pt => out.push("pt"),
+            Ty::Chan => out.push("chan"),
+            Ty::Arr(t) | Ty::Opt(t) => kinds(t, out),
+            Ty::Tup(ts) => ts.iter().for_each(|x| kinds(x, out)),
+            Ty::Res(a, b) => { kinds(a, out); kinds(b, out) }
+            _ => {}
+        }
+    }
+    let mut ks = vec![];
+    tys.iter().for_each(|t| kinds(t, &mut ks));
+    let mut s = String::new();
+    if ks.contains(&"pt") {
+        s.push_str("type Pt = {\n  x: int\n  y: int\n}\nimplement ToString for Pt {\n  fn str(p) = \"Pt(\" .. p.x .. \", \" .. p.y .. \")\"\n}\n");
+    }
+    if ks.contains(&"chan") {
+        s.push_str("implement ToString for channel<T> {\n  fn str(c) = \"chan\"\n}\nlet ch: channel<int> = channel()\n");
+    }
+    s
+}
+
 fn gen_ty(rng: &mut Rng, depth: usize) -> Ty {
     let leaf = depth == 0 || rng.chance(1, 4);
     if leaf {
-        return match rng.below(4) { 0 => Ty::Int, 1 => Ty::Bool, 2 => Ty::Void, _ => Ty::Str };
+        return match rng.below(11) { 0 | 1 => Ty::Int, 2 | 3 => Ty::Bool, 4 | 5 => Ty::Void, 6 | 7 => Ty::Str, 8 => Ty::Float, 9 => Ty::Pt, _ => Ty::Chan };
     }
     match rng.below(8) {
         0..=2 => Ty::Arr(Box::new(gen_ty(rng, depth - 1))),
@@ -183,6 +230,9 @@ fn gen_val(rng: &mut Rng, ty: &Ty, budget: &mut i64) -> V {
         Ty::Bool => V::Bool(rng.chance(1, 2)),
         Ty::Void => V::Nil,
         Ty::Str => V::Str((*rng.pick(&STRS)).to_string()),
+        Ty::Float => float_val(*rng.pick(&FLOATS)),
+        Ty::Pt => { let (x, y) = (rng.range(-9, 9), *rng.pick(&INTS)); V::Ext(format!("Pt({x}, {y})"), format!("Pt({x}, {y})"), "pt") }
+        Ty::Chan => V::Ext("ch".into(), "chan".into(), "chan"),
         Ty::Arr(t) => {
             let n = if *budget <= 0 { 0 } else { *rng.pick(&[0usize, 0, 1, 1, 2, 3, 4, 6]) };
             V::Arr((0..n).map(|_| gen_val(rng, t, budget)).collect())
@@ -208,7 +258,7 @@ fn ty_has_equal(t: &Ty) -> bool {
     match t {
         Ty::Arr(t) => ty_has_equal(t),
         Ty::Tup(ts) => ts.iter().all(ty_has_equal),
-        Ty::Opt(_) | Ty::Res(..) => false,
+        Ty::Opt(_) | Ty::Res(..) | Ty::Pt | Ty::Chan => false,
         _ => true,
     }
 }
@@ -279,7 +329,7 @@ fn purity_job(rng: &mut Rng, max_depth: usize) -> Job {
     let h_name = V::Dyn(hi, dyns[hi].clone());
     let h_items = V::Arr(vec![V::Dyn(hi, dyns[hi].clone()), V::Dyn(hj, dyns[hj].clone()), V::Dyn(hi, dyns[hi].clone())]);
 
-    let mut src = String::new();
+    let mut src = preamble(&[&tv, &tw]);
     if with_struct {
         src.push_str("type Holder = {\n  name: string\n  items: array<string>\n}\n");
     }
@@ -397,7 +447,13 @@ fn main() {
     directed.push((Ty::Bool, V::Bool(true)));
     directed.push((Ty::Bool, V::Bool(false)));
     directed.push((Ty::Void, V::Nil));
-    let leaves: Vec<(Ty, V)> = vec![(Ty::Int, V::Int(-3)), (Ty::Bool, V::Bool(false)), (Ty::Void, V::Nil), (Ty::Str, V::Str("s t".into()))];
+    for f in FLOATS {
+        directed.push((Ty::Float, float_val(f)));
+    }
+    directed.push((Ty::Pt, V::Ext("Pt(1, -2)".into(), "Pt(1, -2)".into(), "pt")));
+    directed.push((Ty::Chan, V::Ext("ch".into(), "chan".into(), "chan")));
+    let leaves: Vec<(Ty, V)> = vec![(Ty::Int, V::Int(-3)), (Ty::Bool, V::Bool(false)), (Ty::Void, V::Nil), (Ty::Str, V::Str("s t".into())),
+        (Ty::Float, float_val("-1.25")), (Ty::Pt, V::Ext("Pt(3, 4)".into(), "Pt(3, 4)".into(), "pt")), (Ty::Chan, V::Ext("ch".into(), "chan".into(), "chan"))];
     for (t, v) in &leaves {
         directed.push((Ty::Arr(Box::new(t.clone())), V::Arr(vec![])));
         directed.push((Ty::Arr(Box::new(t.clone())), V::Arr(vec![v.clone()])));
@@ -412,10 +468,14 @@ fn main() {
         }
     }
 
-    let modes = ["print", "println", "str", "catL", "catR", "cat"];
+    let modes = ["print", "println", "str", "catL", "catR", "cat", "strlocal"];
     let make_job = |ty: &Ty, v: &V, mode: &'static str, other: Option<(Ty, V)>| -> Job {
-        let decl = format!("let v: {} = {}\n", ty.src(), v.src());
+        let mut used: Vec<&Ty> = vec![ty];
+        if let Some((t2, _)) = &other { used.push(t2); }
+        let decl = format!("{}let v: {} = {}\n", preamble(&used), ty.src(), v.src());
         let (req, stmt, expect) = match mode {
+            // the conversion result stored straight into a local (method-call form of `ToString.str`)
+            "strlocal" => (format!("render str {}", v.req()), "let s = v.str()\nprint(s)\n".to_string(), v.render()),
             "print" => (format!("render print {}", v.req()), "print(v)\n".to_string(), v.render()),
             "println" => (format!("render println {}", v.req()), "println(v)\n".to_string(), v.render() + "\n"),
             "str" => (format!("render str {}", v.req()), "let s: string = ToString.str(v)\nprint(s)\n".to_string(), v.render()),
@@ -437,6 +497,17 @@ fn main() {
     for (i, (ty, v)) in directed.iter().enumerate() {
         let mode = modes[i % 5];
         jobs.push(make_job(ty, v, mode, None));
+        if matches!(ty, Ty::Float) {
+            // `StringFromFloat` with a local destination: `let s = x.str()` and the intrinsic by name
+            jobs.push(Job {
+                req: format!("render multi str {q} ; lit {} ; str {q}", hex(b"|"), q = v.req()),
+                src: format!("let x = {}\nlet s = x.str()\nprint(s)\nprint(\"|\")\nlet s2 = string_from_float(x)\nprint(s2)\n", v.src()),
+                expect: format!("{}|{}", v.render(), v.render()),
+                hist: vec!["float-to-string-into-local"],
+                mode: "strlocal-float",
+                depth: 0,
+            });
+        }
         // ints and strings also as literals (the compiler inlines `str` for int/string)
         if matches!(ty, Ty::Int | Ty::Str) {
             let lit = v.src();
@@ -455,7 +526,7 @@ fn main() {
         let ty = gen_ty(&mut ctx.rng, depth);
         let mut budget = 40;
         let v = gen_val(&mut ctx.rng, &ty, &mut budget);
-        let mode = modes[i % 6];
+        let mode = modes[i % 7];
         let other = if mode == "cat" {
             let ty2 = gen_ty(&mut ctx.rng, 2);
             let mut b2 = 12;
